@@ -255,6 +255,16 @@ class BitEval:
             return Unknown("mutation by " + (call[1] if call[0] == "call" else "?"))
         if k == "call":
             return self.call(t, env, fn, depth)
+        if k == "index":
+            # constant index into an array value (array patterns `let [_, b2, b1, b0] = x.to_be_bytes()`)
+            a = self.eval(t[1], env, fn, depth)
+            i = t[2]
+            if isinstance(a, Arr) and isinstance(i, tuple) and i and i[0] == "const" and isinstance(i[1], int) and not isinstance(i[1], bool):
+                n = len(a.items)
+                j = n - i[1] if (len(i) > 2 and i[2]) else i[1]
+                if 0 <= j < n:
+                    return a.items[j]
+            return Unknown("index")
         return Unknown("node " + k)
 
     def join(self, vals):
